@@ -189,6 +189,9 @@ def profile(rng):
     p.getter_probes = True
     p.n_random_probes = 3
     p.time_probes = False
+    if rng.random() < 0.2:  # dozens of rows: the rows of one measurement lie scattered between those of the others
+        p.max_rows = 45
+        p.min_ops, p.max_ops = 4, 9
     if len(p.meas) == 4 and rng.random() < 0.25:
         from .. import gen as _gen
 
